@@ -79,6 +79,25 @@ def run(chk):
                     return f"dyn_loss = {found}"
                 chk.run("C03.R1", site + "->dynamic_loss_apply", cfg, go, construct="dyn_loss formula (single-row batch)")
 
+    # the weight is the one in the loss's public `loss_weights` field when the loss is evaluated (a loss whose weights were
+    # replaced after construction, eqx.tree_at-style, uses the new ones: nothing derived from them is kept from construction)
+    for eq_type in ('ODE', 'statio_PDE', 'nonstatio_PDE'):
+        for kind in (('PINN',) if eq_type == 'ODE' else ('PINN', 'SPINN')):
+            cfg = {"loss": eq_type, "net": kind, "residual_components": 2, "weight": "vector", "param_batch": [],
+                   "loss_weights": "replaced after construction"}
+            site = {"ODE": "jinns.loss._LossODE:LossODE.evaluate", "statio_PDE": "jinns.loss._LossPDE:LossPDEStatio.evaluate",
+                    "nonstatio_PDE": "jinns.loss._LossPDE:LossPDENonStatio.evaluate"}[eq_type]
+
+            def go(eq_type=eq_type, kind=kind):
+                S = SingleLoss(E, eq_type, kind, d=2, m_u=2, m_res=2, terms=('dyn',), wkind='vector').replace_weights()
+                total, terms = S.evaluate()
+                found = canon(scalar_of(terms['dyn_loss'], 'dyn_loss'))
+                exp = canon(scalar_of(S.expected_dyn(()), 'spec'))
+                if found != exp:
+                    raise Violation("dyn_loss", str(found), str(exp))
+                return f"dyn_loss = {found}"
+            chk.run("C03.R1", site + "->dynamic_loss_apply", cfg, go, construct="dyn_loss formula (weights replaced after construction)")
+
     # an equation returning a scalar (float) residual per point - the documented return kind of `equation`
     for eq_type, kind in (('ODE', 'PINN'), ('statio_PDE', 'PINN'), ('nonstatio_PDE', 'PINN'), ('statio_PDE', 'SPINN'),
                           ('nonstatio_PDE', 'SPINN')):
